@@ -72,6 +72,27 @@ pub fn large_inputs(tier: &str) -> Vec<Input> {
         v.push(Input { name: format!("two-components22/{w}"), g: from_edges(n, false, &two, weighted), weighted });
         v.push(Input { name: format!("grid4x6/{w}"), g: from_edges(24, false, &grid, weighted), weighted });
     }
+    // sizes around further round numbers (a second size-gated path would switch on somewhere here)
+    let bigs: Vec<i32> = if tier == "quick" { vec![130, 601, 1030] } else { vec![65, 130, 260, 520, 601, 1030, 2051] };
+    for &n in &bigs {
+        for directed in [false, true] {
+            let mut es: Vec<(i32, i32)> = (0..n).map(|i| (i, (i + 1) % n)).collect();
+            for i in (0..n).step_by(7) {
+                let j = (i * 13 + 5) % n;
+                if j != i && j != (i + 1) % n && (j + 1) % n != i {
+                    es.push((i, j));
+                }
+            }
+            es.sort();
+            es.dedup();
+            // undirected graphs must not hold (a,b) and (b,a)
+            if !directed {
+                let mut seen = std::collections::HashSet::new();
+                es.retain(|&(a, b)| seen.insert((a.min(b), a.max(b))));
+            }
+            v.push(Input { name: format!("big-ring{n}/{}", if directed { "directed" } else { "undirected" }), g: from_edges(n, directed, &es, n % 2 == 0), weighted: n % 2 == 0 });
+        }
+    }
     v
 }
 
@@ -115,6 +136,16 @@ pub fn calls(inp: &Input) -> Vec<(String, Box<dyn Fn() -> u64 + Send + Sync + '_
     let mut v: Vec<(String, Box<dyn Fn() -> u64 + Send + Sync + '_>)> = vec![];
     let n = g.number_of_nodes() as i32;
     let modes: Vec<bool> = if inp.weighted { vec![true, false] } else { vec![false] };
+    if n > 100 {
+        // big inputs: the cheaper variants only
+        let weighted = inp.weighted;
+        v.push((format!("all_pairs(w={weighted},fast)"), Box::new(move || digest_pairs(&dijkstra::all_pairs(g, weighted, None, None, false, false).expect("all_pairs")))));
+        v.push((format!("all_pairs(w={weighted},target,first_only)"), Box::new(move || digest_pairs(&dijkstra::all_pairs(g, weighted, Some(n / 2), Some(9.0), true, true).expect("all_pairs")))));
+        v.push((format!("multi_source(w={weighted},5 sources)"), Box::new(move || digest_pairs(&dijkstra::multi_source(g, weighted, vec![3, 1, 4, 15, 9], None, None, false, true).expect("multi_source")))));
+        v.push((format!("betweenness_centrality(w={weighted},normalized=false)"), Box::new(move || digest_map(&betweenness::betweenness_centrality(g, weighted, false).expect("betweenness")))));
+        v.push((format!("closeness_centrality(w={weighted},wf=true)"), Box::new(move || digest_map(&closeness::closeness_centrality(g, weighted, true).expect("closeness")))));
+        return v;
+    }
     for weighted in modes {
         v.push((format!("all_pairs(w={weighted},paths)"), Box::new(move || digest_pairs(&dijkstra::all_pairs(g, weighted, None, None, false, true).expect("all_pairs")))));
         v.push((format!("all_pairs(w={weighted},fast)"), Box::new(move || digest_pairs(&dijkstra::all_pairs(g, weighted, None, None, false, false).expect("all_pairs")))));
